@@ -6,14 +6,20 @@ from engine.driver import ASAN_FLAGS
 LIB_ENV = ["src/Socket/Server.cpp", "src/Socket/Socket.cpp", "src/Time.cpp"]
 LIB = ["src/Future.cpp", "src/Signal.cpp", "src/Thread.cpp", "src/Mutex.cpp", "src/String.cpp", "src/Memory.cpp", "src/Debug.cpp", "src/Error.cpp", "src/System.cpp"]
 
-def build(ctx, harness="server_io_h.cpp", name="server_io_h"):
-    shim = ["-include", ctx.verif("engine/env/shim.h")]
+def build(ctx, harness="server_io_h.cpp", name="server_io_h", shim_name="shim.h"):
+    shim = ["-include", ctx.verif("engine/env", shim_name)]
     per = {ctx.repo(s): shim for s in LIB_ENV}
     return ctx.compile(name, [ctx.verif("harness", harness)] + [ctx.repo(s) for s in LIB_ENV + LIB], per_source_flags=per)
+
+def build_multi(ctx):
+    return build(ctx, harness="server_multi_h.cpp", name="server_multi_h", shim_name="shim_ctl.h")
 
 def run(ctx):
     b = build(ctx)
     q = ctx.tier == "quick"
+    m = build_multi(ctx)
+    mt, meb, mrb = (3, 2, 1) if q else (3, 2, 2)
+    ctx.run_shards(m, ["--prop", "C13", "--turns", str(mt), "--eb", str(meb), "--rb", str(mrb)], label="two clients turns=%d eb=%d rb=%d" % (mt, meb, mrb))
     cfgs = [(4, 2)] if q else [(5, 2), (4, 3)]
     for turns, eb in cfgs:
         ctx.run_shards(b, ["--turns", str(turns), "--eb", str(eb)], label="server io turns=%d eb=%d" % (turns, eb))
@@ -25,8 +31,13 @@ def run(ctx):
                    "peer writes 2 bytes} (every sequence of %s turns); every send() of the client asks the environment for full (default) / would-block / partial 1, n/2, n-1 "
                    "and every poll for the peer reading all (default) / nothing / one byte, with at most %s non-default answers; the run continues with default answers "
                    "until the backlog has drained; oracle: peer stream is a prefix of and finally equal to the accepted data, postponed and getSendBufferSize() equal "
-                   "accepted minus handed-to-OS bytes, onWrite exactly once per drained backlog episode, no onRead while suspended, client reads what the peer sent, ASan"
-                   % ("/".join(str(t) for t, _ in cfgs), "/".join(str(e) for _, e in cfgs)),
+                   "accepted minus handed-to-OS bytes, onWrite exactly once per drained backlog episode, no onRead while suspended, client reads what the peer sent, ASan. "
+                   "Two clients: %d turns over {nothing, write 3 to both / to client 0, both peers / peer 1 write 2, suspend / resume / remove client 1}, every onRead / onWrite "
+                   "may suspend, resume or remove the other client (at most %d such reactions), send answers full / would-block / partial 1 with at most %d deviations; a "
+                   "descriptor that answered would-block is not writable before time advances, so both clients reach one poll round readable and writable with a backlog; "
+                   "same oracle per client plus no callback after remove()"
+                   % (("/".join(str(t) for t, _ in cfgs), "/".join(str(e) for _, e in cfgs)) + (mt, mrb, meb)),
+           "executions_with_two_backlogs": int(c.get("executions_with_two_backlogs", 0)), "polls_with_two_ready_clients": int(c.get("polls_with_two_ready_clients", 0)),
            "explanation": "stateless exhaustive DFS over choice sequences: states = complete executions, transitions = application actions and intercepted send calls on the real implementation",
            "exhaustive": not c.get("deadline_hit")}
     return ctx.finish("model_checking", cov, ["real kernel socket-pair and epoll semantics; no error injection in this check (would-block and partial sends only)"], tags=["C13"])
@@ -34,7 +45,7 @@ def run(ctx):
 def replay(ctx, rp):
     import subprocess
     from engine.driver import ASAN_ENV
-    b = build(ctx)
+    b = build_multi(ctx) if rp.get("binary", "").startswith("server_multi") else build(ctx)
     choices = rp["case"].split("choices=")[1].split(" ")[0]
     clean = []; skip = False
     for a in rp.get("args", []):
